@@ -215,6 +215,6 @@ func offsetsTable() string {
 	as := arp.SrcIP().As4()
 	l := func(n string, off byte, ln int) string { return fmt.Sprintf("%s=%d.%d", n, off, ln) }
 	return strings.Join([]string{l("ethsrc", eth.Src()[0], len(eth.Src())), l("ip4src", s4[0], 4), l("ip6src", s6[0], 16),
-		l("arpsha", arp.SrcMAC()[0], len(arp.SrcMAC())), l("arpspa", as[0], 4),
+		l("arpsha", arp.SrcMAC()[0], len(arp.SrcMAC())), l("arpspa", as[0], 4), l("arptpa", arp.DstIP().As4()[0], 4),
 		l("dhcpxid", dh.XId()[0], len(dh.XId())), l("dhcpchaddr", dh.CHAddr()[0], len(dh.CHAddr()))}, " ")
 }
